@@ -102,7 +102,10 @@ func (w internalResponseWriter) WriteHeader(code int) {
 // location.
 func (w internalResponseWriter) Write(b []byte) (int, error) {
 	if isInternalRedirect(w) {
-		return 0, nil
+		// the bytes are dropped, not refused: a writer that takes fewer
+		// bytes than it was given must say why (io.Writer), and a caller
+		// such as io.Copy treats a silent short write as a failure
+		return len(b), nil
 	}
 	return w.ResponseWriterWrapper.Write(b)
 }
